@@ -286,6 +286,8 @@ def run(ck):
     built = build_from_summaries(ck, side, probes)
     # ---- tokenizer model vs real tokenize
     lex_compare(ck, ref, probes['asan'], pool, cases)
+    # ---- the parser-model theorems of part (3) are about the code only while the model still answers like the parser
+    model_witnesses(ck, ref, probes['plain'])
     # ---- the real command line tool on a sample (adds import processing and code generation)
     nano_virt_sample(ck, cases, lcases)
     # ---- replay of the open known findings
@@ -389,6 +391,28 @@ def lex_compare(ck, ref, probe, pool, cases):
                 ck.fail('c09:lexmodel:' + b.hex()[:60], 'tokenizer model and real tokenize differ on %r' % b[:60],
                         dict(correspondence='front_probe lex vs nvref_c09 lex', source_hex=b.hex(), model=m[:400], observed_real=rv[:400], engine='front_probe(asan) lex'))
     ck.extra['lexer_compare'] = dict(inputs=len(srcs), differing=bad, lexnull=sum(m == 'lexnull' for m in model))
+
+
+def model_witnesses(ck, ref, probe):
+    """the inputs of C09_prefix_arg_loop_hangs / C09_depth_limit_reported_refuted (and neighbours) on the real parser vs the model"""
+    W = 'let v : int = '
+    srcs = [W + '( + 1 else )', W + '(+ 1 ' * 1001 + '1' + ')' * 1001, W + '(+ 1 ' * 999 + '1' + ')' * 999, W + '(' * 1001 + '1 + 2' + ')' * 1001,
+            W + '( f 1 else )', W + '( + 1 2 )', W + '( + 1 ( f ] ) )', W + '( not )', W + '( - - - 1 )', W + '( + ( + 1 else']
+    real = [fl.split_answer(a)[0] for a in fl.run_probe(probe, [('expr', 3000, x) for x in srcs], jobs=2)]
+    model = vlib.run_lines(ref, ['expr ' + fl.hx(x) for x in srcs], timeout=300)
+    agree = 0
+    for x, r, m in zip(srcs, real, model):
+        rc = 'ok' if r.startswith('ok ') else ('hang' if r.startswith('hang') else ('error' if r in ('parsenull', 'lexnull') else r))
+        ck.count(('witness', x), True)
+        if m in ('unsupported', 'generic'):
+            continue
+        if rc != m:
+            ck.fail('c09:model:' + x[:80], 'parser model and real parser differ on "%s": model=%s real=%s' % (x[:80], m, r[:60]),
+                    dict(correspondence='front_probe expr vs nvref_c09 expr (inputs of the model theorems of Properties_C09 part 3)', source=x[:4000],
+                         model=m, observed_real=r[:200], engine='front_probe(plain)'))
+        else:
+            agree += 1
+    ck.extra['model_witnesses'] = dict(inputs=len(srcs), agree=agree, model=model)
 
 
 def nano_virt_sample(ck, cases, lcases):
